@@ -34,6 +34,11 @@ def mod_fns(L, prefix):
 def run(ck):
     if getattr(ck, 'depth', 0) >= 2:
         return      # a shared run of a shared run: nothing of it is selected, and mutual sharing must end somewhere
+    _run(ck)
+    _shares(ck, ck.facts.lib)
+
+
+def _run(ck):
     F = ck.facts
     L = F.lib
     FAC = core.load_table('cxx_facilities.json')
@@ -743,3 +748,17 @@ def cxx_denotes(text, ch):
         return v == ord(ch) and not 0xd800 <= v <= 0xdfff and v <= 0x10ffff
     # \x.. absorbs following hex digits, 1-2 digit octal absorbs following octal digits, \u{..} is not C++17
     return False
+
+
+def _shares(ck, L):
+    """obligations of other checks that C16's clauses rest on (same facts)."""
+    import core as _core
+    import rules.c03 as c03
+    s3 = _core.Shared(ck, 'R16.1', lambda r, k: r == 'R3.1', 'C03:', ' [the C++ literal is spelled from the decoded string: an undecoded escape is escaped once more and denotes other characters]')
+    c03.run(s3)
+    ck.floor('R16.1', s3.count, 10, 'shared C03 R3.1 obligations')
+    import rules.c05 as c05
+    s5 = _core.Shared(ck, 'R16.2', lambda r, k: r == 'R5.7' or (r == 'R5.6' and k.startswith(('return-type-verified', 'verify_code_return_type-shape'))), 'C05:',
+                      ' [every return statement is printed, also in dead blocks, and the C++ compiler checks each against the function result type]')
+    c05.run(s5)
+    ck.floor('R16.2', s5.count, 4, 'shared C05 R5.6 / R5.7 obligations on return types')
